@@ -214,7 +214,9 @@ def judge_supported_attachments(r, m, source):
     from sharepoint2text.parsing.router import get_extractor, is_supported_file
     fails = []
     want = []
-    received = {att.filename: att.data.getvalue() for att in r.attachments}
+    received = {}
+    for att in r.attachments:          # several attachments may carry one name: they are taken in order
+        received.setdefault(att.filename, []).append(att.data.getvalue())
     for a in m.get("attachments", []):
         from sharepoint2text.parsing.mime_types import MIME_TYPE_MAPPING as _MM
         if a["type"] in _MM:          # "supported" is decided by the declared type; the extractor is then chosen by the file name first, by the type otherwise
@@ -223,7 +225,7 @@ def judge_supported_attachments(r, m, source):
                 # (exactness of those bytes is the attachments clause; text parts travel with the transport's line endings)
                 from sharepoint2text.parsing.mime_types import MIME_TYPE_MAPPING
                 ex = get_extractor(a["name"]) if is_supported_file(a["name"]) else get_extractor("attachment." + MIME_TYPE_MAPPING[a["type"]])
-                res = list(ex(io.BytesIO(received.get(a["name"], attachment_bytes(a))), a["name"]))
+                res = list(ex(io.BytesIO(received[a["name"]].pop(0) if received.get(a["name"]) else attachment_bytes(a)), a["name"]))
                 want.extend(x.to_json() for x in res)
             except Exception:  # noqa
                 pass
@@ -369,6 +371,15 @@ def messages(draw, idx=0):
         while a["name"] in names:
             a["name"] = "n" + a["name"]
         names.add(a["name"])
+    if atts and draw(st.integers(0, 5)) == 0:
+        # the same file attached twice under one name (two exports, a corrected version): same name and declared type, other bytes
+        first = dict(draw(st.sampled_from(atts)))
+        if first.get("hex") is not None and first["type"].startswith("text/") and not first.get("charset"):
+            first["hex"] = (bytes.fromhex(first["hex"]) + b"second copy ZB09020\n").hex()
+            atts.append(first)
+        elif first.get("fmt"):
+            first["seed"] = first["seed"] + 3
+            atts.append(first)
     return {
         "subject": draw(st.sampled_from(SUBJECTS)), "from": draw(_addr_st()), "to": draw(st.lists(_addr_st(), min_size=1, max_size=3)),
         "cc": draw(st.lists(_addr_st(), max_size=2)), "bcc": draw(st.lists(_addr_st(), max_size=1)), "reply_to": draw(st.lists(_addr_st(), max_size=1)),
